@@ -241,6 +241,13 @@ OPS_BED12 = [("len",), ("get", 1), ("get", 10), ("get", 11), ("slice", 0), ("sli
              ("replace", 1), ("write",)]
 DIRECTED_BED12 = [[("get", 10), ("replace", 0), ("get", 10)], [("get", 10), ("replace", 0), ("write",)], [("get", 11), ("slice", 0), ("get", 11), ("write",)],
                   [("slice", 0), ("get", 10), ("swap",), ("get", 10)], [("get", 10), ("get", 10), ("replace", 1), ("get", 11)]]
+# SAM: the optional-tags column ('extra', the rest of the line) across re-layouts of the buffer (a write) and replace() copies
+DIRECTED_SAM = [[("perm",), ("getrest",), ("write",), ("replace", 0), ("getrest",)], [("slice", 0), ("getrest",), ("write",), ("replace", 0), ("write",)],
+                [("mask",), ("getrest",), ("write",), ("replace", 1), ("getrest",)], [("perm",), ("write",), ("getrest",), ("replace", 0), ("getrest",), ("write",)],
+                [("getrest",), ("perm",), ("getrest",)]]
+# an EMPTY Python list as the index (a table without rows), then the usual observations
+DIRECTED_EMPTY = [[("emptylist",), ("len",)], [("emptylist",), ("get", 1), ("write",)], [("slice", 0), ("emptylist",), ("concat",)],
+                  [("get", 0), ("emptylist",), ("get", 0)]]
 SAM_HDR = dict(fmt="sam", rows=[[1, 1, 1, 2, 1, 2, 1, 1, 1, 2, 2], [2, 1, 1, 1, 1, 1, 1, 1, 1, 1, 1, 3]], header=["@HD\tVN:1.0"])
 
 
@@ -331,6 +338,7 @@ class OpSequences(LockStep):
             progs = gen_programs(ops, mx, sample, seed if tier == "thorough" else 0, full)
             if not is_seq(f):
                 progs += [p for p in DIRECTED if p not in progs]
+                progs += DIRECTED_EMPTY + (DIRECTED_SAM if name == "sam" else [])
             else:
                 progs += [p for p in DIRECTED if not any(o[0] == "replace" for o in p) and p not in progs]
             for prog in progs:
@@ -383,6 +391,14 @@ class OpSequences(LockStep):
                     if not all(bool(v < len(t)) for v in idx):
                         obs.append(("skip", "index out of range for this table")); break
                     t = t[ctx.arr(idx, "int64")]
+                elif k == "perm":           # a fixed re-ordering: the first record goes last
+                    if len(t) < 2:
+                        obs.append(("skip", "fewer than two records")); break
+                    t = t[list(range(1, len(t))) + [0]]
+                elif k == "emptylist":
+                    t = t[[]]
+                elif k == "getrest":
+                    obs.append(("get", raw(getattr(t, F.FORMATS[skel["fmt"]]["rest"]))))
                 elif k == "single":
                     if len(t) == 0:
                         obs.append(("skip", "empty table")); break
